@@ -77,7 +77,9 @@ def parseFlags (s : String) : Option Flags :=
   (s.splitOn "+").foldlM (fun (f : Flags) x =>
     if x = "cert" then some { f with cert := true } else if x = "ticket" then some { f with ticket := true }
     else if x = "resume" then some { f with resume := true } else if x = "tls" then some { f with tls := true }
-    else if x = "gm" then some { f with gm := true } else none) {}
+    else if x = "gm" then some { f with gm := true }
+    else if x = "nist" then some f   -- the client offers P-256 only: no effect on the message automaton
+    else none) {}
 
 def isClient (role : String) : Bool := role = "gmclient" ∨ role = "tlsclient"
 def validRole (role : String) : Bool := role ∈ ["gmserver", "gmclient", "tlsserver", "tlsclient", "autoserver"]
